@@ -19,6 +19,8 @@ from pathlib import Path
 
 VERIF = Path(__file__).resolve().parent.parent
 REPO = Path(os.environ.get('VERIF_REPO', '/repo')).resolve()
+# scratch runs (signature discovery against a copy of the repository) write their evidence and replay files elsewhere
+OUT = Path(os.environ.get('VERIF_OUT', str(Path(__file__).resolve().parent.parent)))
 NCPU = int(os.environ.get('VERIF_JOBS', '0')) or min(16, os.cpu_count() or 1)
 HARNESS_VERSION = 1
 
@@ -250,7 +252,7 @@ def write_evidence(prop: str, tier: str, seed: int, level: str, acc: Acc,
         'wall_s': round(wall, 2),
         'violations': int(n_violations),
     }
-    d = VERIF / 'evidence'
+    d = OUT / 'evidence'
     d.mkdir(exist_ok=True)
     p = d / f'{prop}.json'
     tmp = p.with_suffix('.json.tmp')
